@@ -35,7 +35,7 @@ ASSUMPTIONS = [
 
 
 @st.composite
-def cases(draw):
+def cases(draw, big_ok=False):
     n = draw(st.sampled_from([2, 2, 3, 3, 4]))
     content = gen.small_contents()
     base = draw(gen.trees(max_files=4, max_depth=2, content=content))
@@ -46,6 +46,10 @@ def cases(draw):
             trees.append(base)  # identical whole directory
         else:
             trees.append(draw(gen.trees(max_files=4, max_depth=2, content=content)))
+    if big_ok and draw(st.integers(0, 5)) == 0:
+        # >= 2 files above the 1 MiB threshold per writer: the library's own parallel hashing pool
+        bigs = [draw(gen.large_content()), draw(gen.large_content())]
+        trees = [dict(t, **{"big0": bigs[0], "big1": bigs[draw(st.integers(0, 1))]}) for t in trees]
     return {
         "arm": draw(st.sampled_from(["threads", "threads", "threads", "threads", "procs"])),
         "trees": trees,
@@ -282,11 +286,13 @@ def run_case(case, ctx):  # noqa: C901, PLR0912
             cl.append("switches>=10")
         if switches >= 50:
             cl.append("switches>=50")
+        if any("big0" in t for t in case["trees"]):
+            cl.append("hash-pool(>1MiB files)")
         return Result(viols, nontrivial, cl, counters)
 
 
 def run(ctx):
-    ctx.run_given(cases(), run_case, ctx.n(quick=60, thorough=900))
+    ctx.run_given(cases(big_ok=ctx.tier == "thorough"), run_case, ctx.n(quick=200, thorough=900))
 
 
 def replay(case, ctx):
